@@ -17,36 +17,6 @@ fn x_listing<'a>(ids: impl Iterator<Item = &'a Id>) -> X {
         .collect())
 }
 
-/// `Extensions::get_present_fn` returns the *file* map, so the present_fn vector is read from
-/// the `Debug` output: `present_fn: [("name" with priority 3, internal extension), ...]`.
-fn present_fn_listing(e: &Extensions) -> X {
-    let dbg = format!("{e:?}");
-    let key = "present_fn: [";
-    let start = match dbg.find(key) {
-        Some(p) => p + key.len(),
-        None => return X::L(vec![X::N(94)]),
-    };
-    let rest = &dbg[start..];
-    let end = rest.find(']').unwrap_or(rest.len());
-    let mut out = Vec::new();
-    let mut s = &rest[..end];
-    // entries: ("NAME" with priority PRIO, internal extension)
-    while let Some(p) = s.find("(\"") {
-        s = &s[p + 2..];
-        let q = match s.find("\" with priority ") {
-            Some(q) => q,
-            None => break,
-        };
-        let name = &s[..q];
-        s = &s[q + "\" with priority ".len()..];
-        let e = s.find(',').unwrap_or(s.len());
-        let prio: i128 = s[..e].trim().parse().unwrap_or(i128::MAX);
-        out.push(X::L(vec![X::z(prio), X::b(name.as_bytes())]));
-        s = &s[e..];
-    }
-    X::L(out)
-}
-
 fn keys<T>(m: &std::collections::HashMap<CompactString, T>) -> X {
     let mut k: Vec<&[u8]> = m.keys().map(|k| k.as_bytes()).collect();
     k.sort();
@@ -57,7 +27,7 @@ fn list_kind(e: &Extensions, kind: u128) -> X {
     match kind {
         0 => x_listing(e.get_prime().iter().map(|t| &t.0)),
         1 => x_listing(e.get_prepare_fn().iter().map(|t| &t.0)),
-        2 => present_fn_listing(e),
+        2 => x_listing(e.get_present_fn().iter().map(|t| &t.0)),
         3 => x_listing(e.get_package().iter().map(|t| &t.0)),
         4 => x_listing(e.get_post().iter().map(|t| &t.0)),
         5 => keys(e.get_prepare_single()),
@@ -161,18 +131,46 @@ fn present(x: &X) -> X {
     X::ok(X::opt(Some(X::L(vec![X::L(entries), X::n(data_start), X::b(&body)]))))
 }
 
+/// input (L (L word...) crlf rest): the line rendered from its words, then as `present`
+fn present_line(x: &X) -> X {
+    let l = match x.as_l() { Some(l) if l.len() == 3 => l, _ => return X::bad() };
+    let (ws, crlf, rest) = match (l[0].as_l(), l[1].as_bool(), l[2].as_b()) { (Some(w), Some(c), Some(r)) => (w, c, r), _ => return X::bad() };
+    let mut data = b"!> ".to_vec();
+    for (i, w) in ws.iter().enumerate() {
+        let w = match w.as_b() { Some(w) => w, None => return X::bad() };
+        if i > 0 {
+            data.push(b' ');
+        }
+        data.extend_from_slice(w);
+    }
+    data.extend_from_slice(if crlf { &b"\r\n"[..] } else { &b"\n"[..] });
+    data.extend_from_slice(rest);
+    present(&X::b(&data))
+}
+
 fn empty_args(_x: &X) -> X {
     let a = PresentArguments::empty();
     let first = a.iter().next();
     X::ok(X::opt(first.map(|s| X::b(s.as_bytes()))))
 }
 
+/// `get_present_fn` (returned the present_file map before the repair): two present_fn extensions and one present_file
+fn present_fn_getter(_x: &X) -> X {
+    let mut e = Extensions::empty();
+    e.add_present_fn(Box::new(|_, _| false), kvarn::present!(_, {}), Id::new(7, "seven"));
+    e.add_present_fn(Box::new(|_, _| false), kvarn::present!(_, {}), Id::new(3, "three"));
+    e.add_present_file("html", kvarn::present!(_, {}));
+    x_listing(e.get_present_fn().iter().map(|t| &t.0))
+}
+
 pub fn dispatch(comp: &str, x: &X) -> Option<X> {
     Some(match comp {
-        "reg.ops" | "reg.ops_orig" => registry(x),
+        "reg.present_fn_getter" => present_fn_getter(x),
+        "reg.ops" | "reg.ops_v0" => registry(x),
         "std.bsearch" => bsearch(x),
-        "present.parse" | "present.parse_orig" => present(x),
-        "present.empty_args" => empty_args(x),
+        "present.parse" | "present.parse_v0" => present(x),
+        "present.line" => present_line(x),
+        "present.empty_args" | "present.empty_args_v0" => empty_args(x),
         _ => return None,
     })
 }
